@@ -1005,8 +1005,181 @@ func runCertVerify(c *hx.Ctx) {
 		cw.Add(hx.App("Cert_corr.CAddCA", hx.List(ops), cvTimeLit(now), hx.List(verdicts), hx.List(ents)), "addca", len(keys) > 0,
 			map[string]any{"op": "addca", "ops": descOps, "size": len(keys)})
 	}
+	// 4. pools with a verification history: on ONE pool object a genuine leaf is verified (full, then cached),
+	//    then certificates that carry the SAME signature bytes and issuer but differ in one identity field, and
+	//    other genuine leaves, interleaved. Every verdict is compared with the verdict of a pool built afresh
+	//    from the same CAs and blocklist (history independence).
+	tbsOf := func(lc cert.Certificate) *cert.TBSCertificate {
+		return &cert.TBSCertificate{Version: lc.Version(), Name: lc.Name(), Networks: append([]netip.Prefix(nil), lc.Networks()...),
+			UnsafeNetworks: append([]netip.Prefix(nil), lc.UnsafeNetworks()...), Groups: append([]string(nil), lc.Groups()...), IsCA: lc.IsCA(),
+			NotBefore: lc.NotBefore(), NotAfter: lc.NotAfter(), PublicKey: append([]byte(nil), lc.PublicKey()...), Curve: lc.Curve()}
+	}
+	tamper := func(lc cert.Certificate, ca *cvCA) (cert.Certificate, string) {
+		for try := 0; try < 6; try++ {
+			t := tbsOf(lc)
+			what := ""
+			switch c.Intn(6) {
+			case 0:
+				t.Name = t.Name + "-x"
+				if len(t.Name) > 253 {
+					t.Name = "renamed"
+				}
+				what = "name"
+			case 1:
+				g := "ops"
+				if cg := ca.c.Groups(); len(cg) > 0 {
+					g = cg[c.Intn(len(cg))]
+				}
+				t.Groups = append(t.Groups, g)
+				what = "group-added"
+			case 2:
+				if len(t.Networks) == 0 {
+					continue
+				}
+				p := t.Networks[0]
+				if p.Bits() == p.Addr().BitLen() {
+					continue
+				}
+				t.Networks[0] = netip.PrefixFrom(p.Addr(), p.Bits()+1) // a narrower network at the same address stays inside the CA
+				what = "network"
+			case 3:
+				if !t.NotAfter.Add(time.Second).After(ca.c.NotAfter()) {
+					t.NotAfter = t.NotAfter.Add(time.Second)
+				} else {
+					t.NotBefore = t.NotBefore.Add(time.Second)
+				}
+				what = "validity"
+			case 4:
+				pubs := u.leafPub[lc.Curve()]
+				t.PublicKey = pubs[c.Intn(len(pubs))]
+				if string(t.PublicKey) == string(lc.PublicKey()) {
+					continue
+				}
+				what = "public-key"
+			default:
+				if len(t.Groups) == 0 {
+					continue
+				}
+				t.Groups = t.Groups[:len(t.Groups)-1]
+				what = "group-removed"
+			}
+			orig := append([]byte(nil), lc.Signature()...)
+			tc, err := cert.VerifIssue(t, lc.Issuer(), func([]byte) ([]byte, error) { return orig, nil }, 0)
+			if err != nil {
+				continue
+			}
+			tc = cvRoundTrip(tc)
+			if string(tc.Signature()) != string(lc.Signature()) || tc.Issuer() != lc.Issuer() {
+				panic("tampered certificate does not keep signature and issuer")
+			}
+			return tc, what
+		}
+		return nil, ""
+	}
+	nHist := 60 + c.N/25
+	for h := 0; h < nHist; h++ {
+		ca := u.cas[c.Intn(len(u.cas))]
+		for strings.HasPrefix(ca.kind, "expired") {
+			ca = u.cas[c.Intn(len(u.cas))]
+		}
+		pool := pickPool(ca, true)
+		type member struct {
+			lc cert.Certificate
+			ca *cvCA
+			cc *cert.CachedCertificate
+		}
+		mk := func(x *cvCA) member {
+			o := sameKey(x)
+			o.inMemory = strings.HasPrefix(x.kind, "subsec")
+			o.window = []int{0, 0, 4}[c.Intn(3)]
+			lc, _ := cvLeaf(c, u, x, o)
+			return member{lc: lc, ca: x}
+		}
+		members := []member{mk(ca)}
+		for _, x := range pool.cas {
+			if x != ca && c.Chance(0.6) {
+				members = append(members, mk(x))
+			}
+		}
+		if c.Chance(0.2) {
+			f, _ := members[len(members)-1].lc.Fingerprint()
+			pool.p.BlocklistFingerprint(f)
+		}
+		poolLit, blLit := cvPoolLit(u, pool.p), cvBlLit(u, pool.p)
+		fresh := func() *cert.CAPool {
+			f := cvMakePool(pool.cas)
+			for _, b := range cert.VerifBlocklist(pool.p) {
+				f.p.BlocklistFingerprint(b)
+			}
+			return f.p
+		}
+		inWin := func(lc cert.Certificate) time.Time {
+			if c.Chance(0.15) {
+				return cvRandTime(c, lc, ca)
+			}
+			d := lc.NotAfter().Sub(lc.NotBefore())
+			if d <= 0 {
+				return lc.NotBefore()
+			}
+			return lc.NotBefore().Add(time.Duration(c.Rng.Int64N(int64(d))))
+		}
+		var steps []string
+		var js []map[string]any
+		tampAccepted := false
+		full := func(what string, lc cert.Certificate, m *member) {
+			t := inWin(lc)
+			sigok := cvSigOK(pool.p, lc)
+			cc, err := pool.p.VerifyCertificate(t, lc)
+			if err == nil && m != nil {
+				m.cc = cc
+			}
+			_, errF := fresh().VerifyCertificate(t, lc)
+			steps = append(steps, hx.Tuple("0", cvTimeLit(t), cvCertLit(lc, "", u.names), hx.Bool(sigok), hx.Bool(err == nil), hx.Bool(errF == nil), "[]", "[]", "[]"))
+			js = append(js, map[string]any{"step": what, "cert": cvCertJSON(lc), "t": cvTimeNs(t).String(), "sigok": sigok, "with_history": cvErrClass(err), "fresh_pool": cvErrClass(errF)})
+			if m == nil && err == nil {
+				tampAccepted = true
+			}
+		}
+		cachedStep := func(m *member) {
+			if m.cc == nil {
+				return
+			}
+			t := inWin(m.lc)
+			sigok := cvSigOK(pool.p, m.lc)
+			err := pool.p.VerifyCachedCertificate(t, m.cc)
+			_, errF := fresh().VerifyCertificate(t, m.lc)
+			sfp, cfp2 := cert.VerifCachedInternals(m.cc)
+			steps = append(steps, hx.Tuple("1", cvTimeLit(t), cvCertLit(m.lc, "", u.names), hx.Bool(sigok), hx.Bool(err == nil), hx.Bool(errF == nil),
+				u.names.str(sfp), u.names.str(cfp2), u.names.str(m.cc.Fingerprint)))
+			js = append(js, map[string]any{"step": "cached", "t": cvTimeNs(t).String(), "with_history": cvErrClass(err), "fresh_pool_full": cvErrClass(errF)})
+		}
+		full("genuine", members[0].lc, &members[0])
+		cachedStep(&members[0])
+		for k, n := 0, 3+c.Intn(5); k < n; k++ {
+			m := &members[c.Intn(len(members))]
+			switch c.Intn(5) {
+			case 0:
+				full("genuine-again", m.lc, m)
+			case 1:
+				cachedStep(m)
+			default:
+				if m.cc == nil && c.Chance(0.7) {
+					m = &members[0] // tamper preferably with a leaf the pool has accepted
+				}
+				if tc, what := tamper(m.lc, m.ca); tc != nil {
+					full("tampered-"+what, tc, nil)
+				}
+			}
+		}
+		stats["history-steps"] += len(steps)
+		if tampAccepted {
+			stats["history-tampered-accepted"]++
+		}
+		cw.Add(hx.App("Cert_corr.CHistory", poolLit, blLit, hx.List(steps)), "history", true,
+			map[string]any{"op": "history", "pool": len(pool.cas), "steps": js})
+	}
 	cw.Meta("verdicts", stats)
 	cw.Close("real CAPool of 1-4 CAs out of 28 (open/group/network/unsafe/fully constrained, expired, sub-second; v1+v2; Curve25519+P256) x real signed leaves " +
 		"(each constraint inside/edge/outside, wrong key, high/low-S, curve mismatch, missing/unknown issuer) x time at nb-1s..na+1s boundaries and random x blocklist of fp/twin fp/other; " +
-		"accepted certificates are re-checked (cached and full) against a reloaded pool / changed blocklist / later time; non-trivial = issuer found in pool and signature valid; distinct by literal")
+		"accepted certificates are re-checked (cached and full) against a reloaded pool / changed blocklist / later time; pools with history: genuine leaf (full+cached), then same-signature certificates with one identity field changed and other genuine leaves on the SAME pool object, each verdict compared with a fresh pool; non-trivial = issuer found in pool and signature valid; distinct by literal")
 }
